@@ -17,6 +17,16 @@ CHECKS = {
   note=TRUST + " usize overflow is not modelled; interned strings, chunks and functions are excluded by design.",
   technique="Lean 4 proof (invariants over allocation histories; tri-colour completeness) + replay of real allocator event streams + census metamorphics",
   ref="DESIGN.md section 5 C16"),
+ "C06": dict(
+  text="Lean 4 theorems on the captured-variable mechanism (open-cell list of a fiber): open_sorted, capture_shares, close_exact and the refinement refines_cells(_run): every disciplined operation sequence behaves like the abstract store 'one variable per slot instance' in which cells read/write the variable they were created for, before and after the slot is closed and popped. Tie: every capture/close event of real runs replayed through the model; scoping scenarios with constructed expected output in six syntactic positions; program differential against the Lean reference interpreter.",
+  note=TRUST + " The discipline hypothesis (the compiler never truncates below an open cell without closing it) is checked per program (C04 verifier, scenario runs), not proved; name resolution of the real compiler is tied to the reference interpreter by differential runs only.",
+  technique="Lean 4 proof (forward simulation to an abstract variable store) + replay of real capture/close events + constructed-oracle scenarios",
+  ref="DESIGN.md section 5 C06"),
+ "C10": dict(
+  text="Lean 4 theorems: guard_free_equiv (the unchecked value stack of stack.rs equals the bounds-checked one on every operation sequence in which no guard fires, and each guard matters), active_fiber_dual (the borrow-checked and the raw designation of the active fiber agree after every fiber operation), cfg_sites_accounted (every cfg-dependent site regenerated from the source is paired with a modelled operation). Tie: the harness is built in dev/release x feature switches and every program must produce identical traces in all builds.",
+  note=TRUST + " What rustc does with unreachable_unchecked and unchecked pointer arithmetic is outside any model: covered only by the cross-build differential runs (partial).",
+  technique="Lean 4 proof on the guard/designator models + build-matrix differential of all program profiles",
+  ref="DESIGN.md section 5 C10"),
  "C01": dict(
   text="Lean 4 theorems: the collector model (mark/blacken recursion as an explicit-stack machine, passes, sweep) retains every object reachable from a rooted one whenever every pointer field is traced by blacken (collect_safe), retains nothing else (collect_complete) and terminates for well-formed tables; the per-type trace tables are REGENERATED from /repo's source on every run and shown by `decide` to cover every pointer-bearing field except a stated exempt set (schema_covers, schema_wellFormed). Tie: real collections replayed through the Lean collector; traced-edge log vs the schema; all programs run with collection at every allocation (+quarantine, use-after-free monitor) against never-collect.",
   note=TRUST + " The translator xlate is trusted to read the GcManaged impls (validated against the traced-edge log). Values the interpreter holds mid-operation (root discipline of vm.rs/core.rs) are NOT covered by the theorem: monitored runs only. Raw Open(*mut Value) cells are outside the schema (known finding F3).",
